@@ -503,30 +503,48 @@ ob(id="lemma.grammar-equals-rfc", props=["C01", "C02"], route="L", harness="", c
    level="P", bounds="none (finite automata constructions, complete)", functions=[], backend="spec/grammar_tool.py", rc1_is_violation=True, timeout_s=300)
 
 # ----------------------------------------------------------------------------------------------------------------
+# thin public wrappers: which callee, once, with which arguments and defaults (loop-free => complete)
+WRAPPER_CALLEES = ["AddBaseUriExMm", "RemoveBaseUriMm", "NormalizeSyntaxExMm", "NormalizeSyntaxMaskRequiredEx", "MakeOwnerMm", "FreeUriMembersMm",
+                   "ParseUriExMm", "ParseSingleUriExMm", "EscapeEx", "UnescapeInPlaceEx", "ComposeQueryEngine", "ComposeQueryMallocExMm",
+                   "DissectQueryMallocExMm", "FreeQueryListMm"]
+WRAPPERS = ["AddBaseUri", "AddBaseUriEx", "RemoveBaseUri", "NormalizeSyntax", "NormalizeSyntaxEx", "NormalizeSyntaxMaskRequired", "MakeOwner",
+            "ParseUri", "ParseUriEx", "ParseSingleUriEx", "ParseSingleUri", "FreeUriMembers", "Escape", "UnescapeInPlace",
+            "ComposeQueryCharsRequired", "ComposeQueryCharsRequiredEx", "ComposeQuery", "ComposeQueryEx", "ComposeQueryMalloc",
+            "ComposeQueryMallocEx", "DissectQueryMalloc", "DissectQueryMallocEx", "FreeQueryList"]
+for ch in ("A", "W"):
+    ob(id="Wrappers.%s.H" % ch, props=["C01", "C06", "C08", "C10", "C12", "C13", "C16", "C17", "C19", "C20"], route="H", harness="c21_wrappers.c", char=ch,
+       group="thin public wrappers (23 functions): exactly one call of the documented callee with the wrapper's own arguments plus the documented defaults (strict resolution, full mask, TRUE/TRUE resp. plus-to-space/breaks-untouched, default memory manager, NUL-terminated when afterLast == NULL), result handed back, nothing else written",
+       replace_bodies=[(["uri%s%s" % (f, ch) for f in WRAPPER_CALLEES] + (["wcslen"] if ch == "W" else []), "wrapper_callees.c")],
+       level="P", bounds="none (loop-free; every argument symbolic, every pointer argument NULL or valid independently)",
+       functions=["uri%s%s" % (f, ch) for f in WRAPPERS], inlined=[],
+       stubs=["the 14 callees by logging contract stubs (stubs/wrapper_callees.c); strlen/wcslen by logging stub (assumed libc contract)"],
+       timeout_s=600, mem_gb=6)
+
+# ----------------------------------------------------------------------------------------------------------------
 # Quick tier = the per-change subset (regular expressions on obligation ids, per property); the thorough tier runs every
 # obligation that lists the property.  Shared whole-operation obligations are expensive, so each property's quick check
 # keeps the obligations that decide *its* clauses most directly.
 import re as _re
 QUICK = {
-    "C01": [r"^lemma\.grammar", r"^Dispatch\..*\.A\.D$", r"^Parse(Single)?UriExMm\.A", r"^ParseIpFourAddress\.A", r"^ParseIPv6address2\.", r"^OnExitHost\.A"],
+    "C01": [r"^Wrappers\.A", r"^lemma\.grammar", r"^Dispatch\..*\.A\.D$", r"^Parse(Single)?UriExMm\.A", r"^ParseIpFourAddress\.A", r"^ParseIPv6address2\.", r"^OnExitHost\.A"],
     "C02": [r"^lemma\.grammar", r"^OnExitHost\.A", r"^PushPathSegment\.A", r"^FixEmptyTrailSegment\.A", r"^ParseIpFourAddress\.A", r"^Marks\..*\.A", r"^OnExitSegment\.A"],
     "C03": [r"^Parse[A-Za-z0-9]+\.A\.D$", r"^(FreeUriMembersMm|StopSyntaxMalloc|PushPathSegment)\.A", r"^ParseIpFourAddress\.A", r"^ParseIPv6address2\.K8\.A"],
     "C04": [r"^ToString\.content\..*\.A"],
     "C05": [r"^ToString\.cap\."],
-    "C06": [r"^AddBaseUri\.A"],
+    "C06": [r"^Wrappers\.A", r"^AddBaseUri\.A"],
     "C07": [r"^RemoveBaseUri\.A", r"^MakeOwner\.A", r"^NormalizeSyntax\.borrowed\.(scheme-query-fragment|all-short|path)\.A", r"^PushPathSegment\.A"],
-    "C08": [r"^NormalizeSyntax\.(borrowed|owned)\.(scheme-query-fragment|authority|path|all-short)\.A", r"^NormalizeMaskRequired\..*\.A"],
+    "C08": [r"^Wrappers\.A", r"^NormalizeSyntax\.(borrowed|owned)\.(scheme-query-fragment|authority|path|all-short)\.A", r"^NormalizeMaskRequired\..*\.A"],
     "C09": [r"^NormalizeSyntax\.(borrowed|owned)\.(path|all-short)\.A", r"^NormalizeSyntax\.borrowed\.(dots|netpath)\.A"],
-    "C10": [r"^RemoveBaseUri\."],
+    "C10": [r"^Wrappers\.A", r"^RemoveBaseUri\."],
     "C11": [r"."],
     "C12": [r"^Watch\.(AddBaseUri|Readers|NormalizeMaskRequired|ComposeQuery)\.A", r"^MakeOwner\.", r"^NormalizeSyntax\.borrowed\.authority\.A", r"^EqualsUri\.A", r"^ToString\.cap\.regname\.A", r"^NormalizeMaskRequired\.authority\.A"],
-    "C13": [r"^static\.", r"^FreeUriMembersMm\.A", r"^MakeOwner\.A", r"^DissectQuery\.A", r"^uriMemoryManagerIsComplete", r"^AppendQueryItem\.A", r"^ComposeQueryMalloc\.A"],
+    "C13": [r"^Wrappers\.A", r"^static\.", r"^FreeUriMembersMm\.A", r"^MakeOwner\.A", r"^DissectQuery\.A", r"^uriMemoryManagerIsComplete", r"^AppendQueryItem\.A", r"^ComposeQueryMalloc\.A"],
     "C14": [r"^AddBaseUri\.A", r"^MakeOwner\.A", r"^DissectQuery\.A", r"^AppendQueryItem\.A", r"^StopSyntaxMalloc\.A", r"^PushPathSegment\.A", r"^RemoveBaseUri\.A", r"^NormalizeSyntax\.borrowed\.path\.A"],
     "C15": [r"."],
-    "C16": [r"^EscapeEx\.A\.N", r"^UnescapeInPlaceEx\.A\.N", r"^EscapeEx\.corner", r"Content\.", r"^EscapeRoundTrip\.", r"^UnescapeTokens\.A"],
-    "C17": [r"^DissectQuery\.", r"^AppendQueryItem\.A", r"^ComposeQuery\.", r"^ComposeQueryMalloc\."],
+    "C16": [r"^Wrappers\.A", r"^EscapeEx\.A\.N", r"^UnescapeInPlaceEx\.A\.N", r"^EscapeEx\.corner", r"Content\.", r"^EscapeRoundTrip\.", r"^UnescapeTokens\.A"],
+    "C17": [r"^Wrappers\.A", r"^DissectQuery\.", r"^AppendQueryItem\.A", r"^ComposeQuery\.", r"^ComposeQueryMalloc\."],
     "C18": [r"^FilenameRoundTrip", r"^FilenameShortForms\."],
-    "C19": [r"^Marks\.Parse(UriTail|AuthorityTwo|OwnUserInfo)\.W", r"^ComposeQueryMalloc\.W", r"^EqualsUri\.W", r"^CompareRange\.W", r"^ToString\.cap\..*\.W", r"^MakeOwner\.W", r"^RemoveBaseUri\.W", r"^DissectQuery\.W", r"Content\.W", r"^EscapeRoundTrip\.W",
+    "C19": [r"^Wrappers\.W", r"^Marks\.Parse(UriTail|AuthorityTwo|OwnUserInfo)\.W", r"^ComposeQueryMalloc\.W", r"^EqualsUri\.W", r"^CompareRange\.W", r"^ToString\.cap\..*\.W", r"^MakeOwner\.W", r"^RemoveBaseUri\.W", r"^DissectQuery\.W", r"Content\.W", r"^EscapeRoundTrip\.W",
             r"^OnExitHost\.W", r"^NormalizeMaskRequired\..*\.W", r"^Dispatch\.Parse(PctEncoded|UriReference|OwnHost2|IpFuture)\.W", r"^FilenameShortForms\.W"],
     "C20": [r"^static\.", r"^Watch\..*\.A", r"^Watch\.(AddBaseUri|ComposeQuery)\.W", r"^EqualsUri\.A", r"^ToString\.cap\.regname\.A", r"^MakeOwner\.A"],
 }
